@@ -296,7 +296,7 @@ def check_mirror_fns(ctx, rule, fa, fb, pairs, label):
 
 # ---- path-set analysis with null facts ------------------------------------------------------------------
 
-def paths_with_nullfacts(fn, label, ser=None):
+def paths_with_nullfacts(fn, label, ser=None, atom_label=None):
     """Exit states: frozenset of labels and ('null', expr)/('nonnull', expr) facts gathered from branches;
     infeasible combinations (same expr null and non-null) are pruned."""
     ser = ser or Ser(fn)
@@ -322,7 +322,7 @@ def paths_with_nullfacts(fn, label, ser=None):
             if facts is None:
                 return []
             for k, e in facts:
-                opp = ("nonnull" if k == "null" else "null", e)
+                opp = ("nonnull" if k == "null" else "null", e) if k in ("null", "nonnull") else (k, not e)
                 if opp in s:
                     return []
             return [s | frozenset(facts)]
@@ -330,6 +330,11 @@ def paths_with_nullfacts(fn, label, ser=None):
 
         def assume(a, v):
             a = a.strip()
+            if atom_label is not None:
+                k_ = atom_label(a)
+                if k_ is not None:
+                    facts.append((k_, v))
+                    return
             if a.kind == "BinaryOperator" and a.op in ("==", "!="):
                 l, r = a.children
                 for x, y in ((l, r), (r, l)):
@@ -345,7 +350,7 @@ def paths_with_nullfacts(fn, label, ser=None):
             return []
         fact_cache[key] = facts
         for k, e in facts:
-            opp = ("nonnull" if k == "null" else "null", e)
+            opp = ("nonnull" if k == "null" else "null", e) if k in ("null", "nonnull") else (k, not e)
             if opp in s:
                 return []
         return [s | frozenset(facts)]
@@ -403,11 +408,21 @@ def _check_ordered_insert(g):
     if problems:
         return problems
     cmp_ids = {c.id: deref_of(c.args[2]) for c in cmps}
+    # state: (locals known to hold the node the comparator last looked at, its verdict or "pending:<id>",
+    #         values of bool locals (a literal, or "cmp:<id>" = holds the verdict of that comparison),
+    #         classes of pointer locals known to hold the same node)
+
+    def cls_of(alias, v):
+        for c in alias:
+            if v in c:
+                return c
+        return frozenset([v])
 
     def transfer(n, st):
-        var, res, bools = st
+        vars_, res, bools, alias = st
         if n.id in cmp_ids:
-            return [(cmp_ids[n.id], "pending:%d" % n.id, bools)]
+            v = cmp_ids[n.id]
+            return [(frozenset(cls_of(alias, v)), "pending:%d" % n.id, bools, alias)]
         tgt, rhs = None, None
         if n.kind == "BinaryOperator" and n.op == "=":
             tgt, rhs = _local_did(n.children[0]), n.children[1]
@@ -421,7 +436,7 @@ def _check_ordered_insert(g):
         if dc is not None and n.args:
             x = _local_did(n.args[0])
             side, nm = dc
-            if x is not None and x == var and res in (True, False):
+            if x is not None and x in vars_ and res in (True, False):
                 if (side == "left") != res:
                     problems.append("%s on the side where less(new, current) is %s, at %s" % (nm, res, n.loc))
             elif nm.startswith("insert_"):
@@ -431,43 +446,62 @@ def _check_ordered_insert(g):
         return [st]
 
     def assign(st, tgt, rhs):
-        var, res, bools = st
+        vars_, res, bools, alias = st
         b = dict(bools)
         v = std_unwrap(rhs)
         if v.kind == "CXXBoolLiteralExpr":
             b[tgt] = bool(v.get("bv"))
+        elif v.kind == "CXXNullPtrLiteralExpr" or v.get("nullc") or rhs.strip().get("nullc"):
+            b[tgt] = False          # a pointer local known to be null (tested like a bool)
+        elif v.id in cmp_ids or rhs.strip().id in cmp_ids:
+            b[tgt] = "cmp:%d" % (v.id if v.id in cmp_ids else rhs.strip().id)
         else:
             b.pop(tgt, None)
-        if tgt == var:
-            var, res = None, None
-        return (var, res, tuple(sorted(b.items())))
+        # pointer copies: tgt leaves its class; `tgt = y` puts it into y's class
+        y = _local_did(rhs)
+        al = [frozenset(c - {tgt}) for c in alias]
+        al = [c for c in al if len(c) > 1]
+        if y is not None and y != tgt:
+            cy = cls_of(al, y)
+            al = [c for c in al if c != cy] + [frozenset(cy | {tgt})]
+        vs = set(vars_) - {tgt}
+        if y is not None and y in vars_ and y != tgt:
+            vs.add(tgt)
+        if not vs:
+            res = None
+        return (frozenset(vs), res, tuple(sorted(b.items())), tuple(sorted(al, key=sorted)))
 
     def refine(cond, truth, st):
-        var, res, bools = st
+        vars_, res, bools, alias = st
         bd = dict(bools)
 
         def val(x):
             x = x.strip()
             if x.id in cmp_ids:
-                if isinstance(res, str) and res == "pending:%d" % x.id:
-                    return None
                 return None
             d = _local_did(x)
-            if d is not None and d in bd:
+            if d is not None and d in bd and isinstance(bd[d], bool):
                 return int(bd[d])
             return None
-        # the comparator's own branch fixes its verdict
+        # the comparator's own branch -- or a branch on a bool local that holds its verdict -- fixes the verdict
         c = cond.strip()
         t = truth
         while c.kind == "UnaryOperator" and c.op == "!":
             c, t = c.children[0].strip(), not t
         if c.id in cmp_ids and isinstance(res, str):
-            return [(var, t, bools)]
+            return [(vars_, t, bools, alias)]
+        d = _local_did(c)
+        if d is not None and isinstance(bd.get(d), str) and bd[d].startswith("cmp:"):
+            cid = bd[d][4:]
+            if res == "pending:%s" % cid:
+                return [(vars_, t, bools, alias)]
+            if isinstance(res, bool):
+                return [st] if res == t else []
         v = flow.sem_eval(cond, val)
         if v is not None and bool(v) != truth:
             return []
         return [st]
-    flow.run(g, [(None, None, ())], transfer, refine, limit=100000)
+    flow.run(g, [(frozenset(), None, (), ())], transfer, refine, limit=100000)
     return sorted(set(problems))
 
 
@@ -504,23 +538,39 @@ def _check_positional_insert(g):
             return (cur[0], cur[1])
         return ("other", None)
 
-    def set_var(st, d, org, nul, rk=None):
+    def set_var(st, d, org, nul, rk=None, rof=None, assigned=False):
         m = dict(st[1])
-        m[d] = (org, nul, rk)
+        if assigned:
+            # d gets a new value: nobody is "the right child of d" any more
+            for k_, v_ in list(m.items()):
+                if len(v_) > 3 and v_[3] == d:
+                    m[k_] = (v_[0], v_[1], v_[2], None)
+        m[d] = (org, nul, rk, rof)
         return (st[0], tuple(sorted(m.items(), key=lambda kv: kv[0])))
+
+    def right_of(e):
+        """the local x if e is get_right(x)"""
+        e = std_unwrap(e)
+        if e.is_call() and e.callee and e.callee["n"] == "get_right" and e.args:
+            return _local_did(e.args[0])
+        return None
 
     def transfer(n, st):
         if n.kind == "DeclStmt":
             for d in n.get("decls", []):
                 if "init" in d and (g.node(d["init"]).get("t") or "").rstrip().endswith("*"):
                     org, nul = origin_of(g.node(d["init"]), st)
-                    st = set_var(st, d["d"], org, nul)
+                    st = set_var(st, d["d"], org, nul, None, right_of(g.node(d["init"])), assigned=True)
             return [st]
+        if n.kind == "ParamBind" and (n.d.get("t") or "").rstrip().endswith("*") and n.d.get("init") is not None:
+            # by-value pointer parameter of a virtually inlined helper (a cursor the helper advances)
+            org, nul = origin_of(g.node(n.d["init"]), st)
+            return [set_var(st, n.d["d"], org, nul, None, right_of(g.node(n.d["init"])), assigned=True)]
         if n.kind == "BinaryOperator" and n.op == "=":
             d = _local_did(n.children[0])
             if d is not None and (n.children[0].get("t") or "").rstrip().endswith("*"):
                 org, nul = origin_of(n.children[1], st)
-                return [set_var(st, d, org, nul)]
+                return [set_var(st, d, org, nul, None, right_of(n.children[1]), assigned=True)]
             return [st]
         if n.is_call() and n.callee and n.kind == "CXXMemberCallExpr" and n.callee["n"] in ("insert_root", "insert_left", "insert_right"):
             nm = n.callee["n"]
@@ -559,16 +609,21 @@ def _check_positional_insert(g):
             return [((not t), st[1])]
         m = dict(st[1])
         if d is not None and d in m:
-            org, nul, rk = m[d]
+            org, nul, rk, rof = (tuple(m[d]) + (None,))[:4]
             if nul is not None and (nul == "nn") != t:
                 return []
-            return [set_var(st, d, org, "nn" if t else "null", rk)]
+            st = set_var(st, d, org, "nn" if t else "null", rk, rof)
+            if rof is not None and rof in m:
+                # d holds get_right(rof): testing d tells whether rof has a right child
+                o2, n2, _, r2 = (tuple(m[rof]) + (None,))[:4]
+                st = set_var(st, rof, o2, n2, "rnn" if t else "rnull", r2)
+            return [st]
         x = std_unwrap(c)
         if x.is_call() and x.callee and x.callee["n"] == "get_right" and x.args:
             d = _local_did(x.args[0])
             if d in m:
-                org, nul, rk = m[d]
-                return [set_var(st, d, org, nul, "rnn" if t else "rnull")]
+                org, nul, rk, rof = (tuple(m[d]) + (None,))[:4]
+                return [set_var(st, d, org, nul, "rnn" if t else "rnull", rof)]
         return [st]
     flow.run(g, [(None, ())], transfer, refine, limit=100000)
     return sorted(set(problems))
@@ -774,6 +829,11 @@ def bool_eval(n, val, ser):
             return {"<=": a <= b, "<": a < b, ">=": a >= b, ">": a > b, "==": a == b, "!=": a != b}[n.op]
     if n.kind == "UnaryOperator" and n.op == "!":
         return not bool_eval(n.children[0], val, ser)
+    if n.kind == "DeclRefExpr" and n.get("local") and n.get("dk") == "Var":
+        # a named, once-initialised bool (`const bool overlaps = lo <= ub && lb <= hi;`) stands for its initialiser
+        ini = RA.local_inits(n.fn).get(n.d["d"])
+        if ini is not None and not RA._reassigned(n.fn, n.d["d"]):
+            return bool_eval(ini, val, ser)
     v = val(ser.expr(n))
     if v is None:
         raise KeyError(ser.expr(n))
@@ -925,6 +985,15 @@ def check_C07(ctx, unit, thorough=False):
                         return lb
                     if xs.n == UBN:
                         return ub
+                # the value of a virtually inlined helper / lambda call is the value of its return expression, and a
+                # named once-initialised bool stands for its initialiser (both evaluated in the current state)
+                x0 = x.strip()
+                if x0.d.get("inlined") and len(x0.d.get("rets", [])) == 1:
+                    return flow.sem_eval(g.node(x0.d["rets"][0]), val)
+                if x0.kind == "DeclRefExpr" and x0.get("local") and x0.get("dk") == "Var":
+                    ini = RA.local_inits(g).get(x0.d["d"])
+                    if ini is not None and not RA._reassigned(g, x0.d["d"]) and (ini.get("t") or ini.strip().get("t") or "") in ("bool", "_Bool"):
+                        return flow.sem_eval(ini, val)
                 return None
             return val
 
@@ -1074,23 +1143,120 @@ def check_C07(ctx, unit, thorough=False):
         ctx.inst("H.aggregate-after-relink", "%s::%s [interval aggregator]" % (RB, name), not bad and n_need > 0, f.loc,
                  "; ".join(sorted(set(bad))[:3]) if bad else "%d child-link writes, each followed by re-aggregation" % n_need, f)
     for f in fns.get("aggregate_path", [])[:1]:
-        brk = any(n.kind == "BreakStmt" for n in f.all_nodes())
-        cond_ok = any(blk.cond is not None and "aggregate(" in Ser(f).expr(f.node(blk.cond)) and "!" in Ser(f).expr(f.node(blk.cond))
-                      for blk in f.blocks.values())
-        up = any(n.kind == "BinaryOperator" and n.op == "=" and "get_parent(current)" in Ser(f).expr(n.children[1]) for n in f.events())
-        ctx.inst("H.aggregate-after-relink", "%s::aggregate_path [interval aggregator]" % RB, brk and cond_ok and up, f.loc,
-                 "walks up through get_parent and stops only when aggregate() reports 'unchanged': %s" % (brk and cond_ok and up), f)
+        # stated on the CFG (for/while/do, break or return alike): aggregate(c) is called on a cursor c inside a loop, the
+        # cursor moves to get_parent(c) on the way round, and the loop is left early only where aggregate(c) is known false
+        problems = []
+        aggs = [n for n in f.events() if n.is_call() and n.callee and n.callee["n"] == "aggregate" and n.args and _local_did(n.args[-1]) is not None]
+        loops = [lp for lp in flow.natural_loops(f) if aggs and f.positions()[aggs[0].id][0] in lp.body]
+        if len(aggs) != 1 or not loops:
+            problems.append("no aggregate(cursor) call inside a loop")
+        else:
+            ag, lp = aggs[0], min(loops, key=lambda l: len(l.body))
+            cur = _local_did(ag.args[-1])
+            ups = [n for n in f.events() if n.kind == "BinaryOperator" and n.op == "=" and _local_did(n.children[0]) == cur
+                   and f.positions()[n.id][0] in lp.body and std_unwrap(n.children[1]).is_call() and std_unwrap(n.children[1]).callee
+                   and std_unwrap(n.children[1]).callee["n"] == "get_parent" and _local_did(std_unwrap(n.children[1]).args[-1]) == cur]
+            if not ups:
+                problems.append("the cursor is not advanced to get_parent(cursor) inside the loop")
+
+            def agg_false(cond, truth):
+                c, t = cond.strip(), truth
+                while c.kind == "UnaryOperator" and c.op == "!":
+                    c, t = c.children[0].strip(), not t
+                return std_unwrap(c).id == ag.id and t is False
+            for b in sorted(lp.body):
+                if b == lp.header:
+                    continue
+                for succ, cond, truth in f.branch_edges(b):
+                    if succ in lp.body:
+                        continue
+                    ok_edge = cond is not None and agg_false(cond, truth)
+                    if not ok_edge:
+                        nodes_ = f.blocks[b].nodes()
+                        facts = flow.facts_at(f, nodes_[-1].id) if nodes_ else []
+                        ok_edge = any(agg_false(c_, t_) for c_, t_ in facts)
+                    if not ok_edge:
+                        problems.append("the walk can stop (edge out of block %d) although aggregate() did not report 'unchanged'" % b)
+            # the header may only stop the walk on the cursor itself
+            hb = f.blocks[lp.header]
+            if hb.cond is not None and _local_did(f.node(hb.cond)) != cur and not any(
+                    x.kind == "DeclRefExpr" and x.d.get("d") == cur for x in f.node(hb.cond).walk()):
+                problems.append("the loop condition does not test the cursor")
+        ctx.inst("H.aggregate-after-relink", "%s::aggregate_path [interval aggregator]" % RB, not problems, f.loc,
+                 "; ".join(problems) if problems else "walks up through get_parent and stops early only when aggregate() reports 'unchanged'", f)
     ag = [f for f in unit.functions if f.owner_cls == IT + "::aggregator" and f.name == "aggregate"]
     for f in ag[:1]:
         sr = Ser(f, sound=True)
         body = f.node(f.d["body"])
         ifs2 = [n for n in body.walk() if n.kind == "IfStmt" and "subtree_max" in sr.expr(n.child("cond")) and
                 re.search(r"get_(left|right)\(", sr.expr(n.child("cond")))]
-        okm = len(ifs2) == 2 and mirror(sr.stmt(ifs2[0]), [("get_left", "get_right")]) == sr.stmt(ifs2[1])
-        init = [sr.expr(i) for d, i in RA.local_inits(f).items() if RA._reassigned(f, d)]
-        oki = any(x.startswith("upper(") for x in init)
-        ctx.inst("M.aggregator", IT + "::aggregator::aggregate", okm and oki, f.loc,
-                 "left/right statements mirror: %s; starts from upper(node): %s" % (okm, oki), f)
+        # decided by interpretation over small valuations instead of by the shape of the two statements: for every
+        # (upper(node), left present?, max(left), right present?, max(right), old subtree_max) in {0,1,2}, on every path
+        # the function leaves subtree_max = max(upper, max of the present children) and reports whether that changed it
+        pn = f.params()[0]["n"]
+        T_U, T_OLD = "upper(%s)" % pn, "h(%s).subtree_max" % pn
+        T_L, T_R = "get_left(%s)" % pn, "get_right(%s)" % pn
+        T_ML, T_MR = "h(%s).subtree_max" % T_L, "h(%s).subtree_max" % T_R
+        problems = set()
+        n_cases = 0
+        for U, ML, MR, OLD in itertools.product(range(3), repeat=4):
+            for Lp, Rp in ((0, 0), (0, 1), (1, 0), (1, 1)):
+                if (not Lp and ML) or (not Rp and MR):
+                    continue
+                n_cases += 1
+
+                def mkleaf(env):
+                    def leaf(x):
+                        xs = std_unwrap(x)
+                        if xs.kind == "DeclRefExpr" and xs.get("local") and xs.d["d"] in env:
+                            return env[xs.d["d"]]
+                        t = sr.expr(x)
+                        if t in env:
+                            return env[t]
+                        return {T_U: U, T_OLD: OLD, T_L: Lp, T_R: Rp, T_ML: ML if Lp else None, T_MR: MR if Rp else None}.get(t)
+                    return leaf
+
+                def transfer(n, st):
+                    env, rv = dict(st[0]), st[1]
+                    if n.kind == "DeclStmt":
+                        for d in n.get("decls", []):
+                            if "init" in d:
+                                v = flow.sem_eval(f.node(d["init"]), mkleaf(env))
+                                if v is not None and not isinstance(v, bool):
+                                    env[d["d"]] = v
+                    elif n.kind == "BinaryOperator" and n.op == "=":
+                        v = flow.sem_eval(n.children[1], mkleaf(env))
+                        l = std_unwrap(n.children[0])
+                        if l.kind == "DeclRefExpr" and l.get("local"):
+                            if v is None:
+                                env.pop(l.d["d"], None)
+                            else:
+                                env[l.d["d"]] = v
+                        elif sr.expr(n.children[0]) == T_OLD:
+                            env[T_OLD] = v
+                    elif n.kind == "ReturnStmt" and n.child("val") is not None:
+                        rv = flow.sem_eval(n.child("val"), mkleaf(env))
+                    return [(tuple(sorted(env.items(), key=str)), rv)]
+
+                def refine(cond, truth, st):
+                    v = flow.sem_eval(cond, mkleaf(dict(st[0])))
+                    return [st] if v is None or bool(v) == truth else []
+                _, ex = flow.run(f, [((), None)], transfer, refine, limit=100000)
+                want = max([U] + ([ML] if Lp else []) + ([MR] if Rp else []))
+                for envt, rv in ex:
+                    fin = dict(envt).get(T_OLD, OLD)
+                    where = "upper=%d left=%s right=%s old=%d" % (U, ML if Lp else "-", MR if Rp else "-", OLD)
+                    if fin != want:
+                        problems.add("leaves subtree_max = %s, expected %d (%s)" % (fin, want, where))
+                    if rv is None or bool(rv) != (want != OLD):
+                        problems.add("returns %s although the aggregate %s (%s)" % (rv, "changed" if want != OLD else "did not change", where))
+                if not ex:
+                    problems.add("no path reaches the exit (%s)" % where)
+            if len(problems) > 4:
+                break
+        ctx.inst("M.aggregator", IT + "::aggregator::aggregate", not problems, f.loc,
+                 "; ".join(sorted(problems)[:3]) if problems else
+                 "%d valuations: subtree_max = max(upper(node), max of the present children), result = changed" % n_cases, f)
     ins = [f for f in unit.functions if f.owner_cls == IT and f.name == "insert"]
     for f in ins[:1]:
         seed = [n for n in f.events() if n.kind == "BinaryOperator" and n.op == "=" and "subtree_max" in _ids(canon(n.children[0]))
@@ -1130,19 +1296,57 @@ def check_C08(ctx, unit):
             raise AnalysisBroken("anchor vanished: %s::%s" % (PH, need))
     f = fns["_merge"][0]
     sr = Ser(f, sound=True)
-    body = f.node(f.d["body"])
-    top_if = [n for n in body.children if n.kind == "IfStmt" and not is_assert_stmt(n)]
+    # Stated on paths, not on the statement tree (the case split may be an if/else, a conditional expression over a
+    # helper that links one element below the other, ...): the comparator compare(x, y) is called on the two parameters;
+    # the set of (link writes, null facts, returned element) of the paths on which it holds, with the parameters
+    # exchanged, equals the set of the paths on which it does not; and where compare(x, y) holds, y is returned.
+    pa, pb = f.params()[0]["n"], f.params()[1]["n"]
+    cmps = [n for n in f.events() if n.kind == "CXXOperatorCallExpr" and n.callee and n.callee.get("op") == "()" and not n.d.get("inlined")
+            and len(n.args) >= 2 and {sr.expr(n.args[-2]), sr.expr(n.args[-1])} == {pa, pb}]
     ok, why = False, "no comparator case split"
-    if top_if:
-        n = top_if[0]
-        a, b = sr.stmt(n.child("then")), sr.stmt(n.child("else"))
-        pa, pb = f.params()[0]["n"], f.params()[1]["n"]
-        ma = mirror(a, [(pa, pb)])
-        c = sr.expr(n.child("cond"))
-        okm = ma == b
-        cargs = [sr.expr(x) for x in std_unwrap(n.child("cond")).args] if std_unwrap(n.child("cond")).is_call() else []
-        okw = a.rstrip().endswith("return %s;" % pb) and cargs[-2:] == [pa, pb]
-        ok, why = okm and okw, "arms mirror under %s<->%s: %s; compare(%s, %s) true returns %s: %s" % (pa, pb, okm, pa, pb, pb, okw)
+    if len(cmps) == 1:
+        cm = cmps[0]
+        first, second = sr.expr(cm.args[-2]), sr.expr(cm.args[-1])
+
+        def atom_label(a, cm=cm):
+            return "cmp" if a.id == cm.id else None
+
+        def lab(n):
+            hw = hook_write(n)
+            if hw and hw[1] is not None:
+                return ("w", hw[0], sr.expr(hw[1]), sr.expr(hw[2]))
+            if n.kind == "ReturnStmt" and n.child("val") is not None:
+                return ("ret", n.id)
+            return None
+
+        def ret_value(x, verdict):
+            x = x.strip()
+            if x.kind == "ConditionalOperator" and len(x.children) == 3 and x.children[0].strip().id == cm.id:
+                return ret_value(x.children[1] if verdict else x.children[2], verdict)
+            return sr.expr(x)
+        ex = paths_with_nullfacts(f, lab, sr, atom_label)
+        by = {True: set(), False: set()}
+        undecided = 0
+        for st in ex:
+            v = [x[1] for x in st if isinstance(x, tuple) and x[0] == "cmp"]
+            if len(v) != 1:
+                undecided += 1
+                continue
+            items = set()
+            for x in st:
+                if isinstance(x, tuple) and x[0] == "ret":
+                    items.add(("ret", ret_value(f.node(x[1]).child("val"), v[0])))
+                elif isinstance(x, tuple) and x[0] != "cmp":
+                    items.add(x)
+            by[v[0]].add(frozenset(items))
+
+        def mir(st):
+            return frozenset(tuple(mirror(y, [(pa, pb)]) if isinstance(y, str) else y for y in x) for x in st)
+        okm = bool(by[True]) and {mir(st) for st in by[True]} == by[False]
+        okw = bool(by[True]) and all(("ret", second) in st for st in by[True]) and all(("ret", first) in st for st in by[False])
+        ok = okm and okw and not undecided
+        why = "paths under compare(%s, %s) mirror the paths under its negation (%s<->%s): %s; compare(%s, %s) true returns %s: %s%s" % (
+            first, second, pa, pb, okm, first, second, second, okw, "; %d path(s) reach the exit without consulting the comparator" % undecided if undecided else "")
     ctx.inst("M.merge-mirror", PH + "::_merge", ok, f.loc, why, f)
 
     def hw_label(fn, sr):
@@ -1255,8 +1459,11 @@ def check_C08(ctx, unit):
     ok = False
     for n in f.events():
         w = write_of(n)
-        if w and w[0] == ("this", "_root") and sr.expr(w[1]) == f.params()[0]["n"]:
-            for c, t in flow.facts_at(f, n.id):
-                if path(c.strip()) == ("this", "_root") and t is False:
-                    ok = True
+        if w and w[0] == ("this", "_root") and w[1] is not None:
+            # (`_root = _root ? _merge(_root, e) : e;` produces the element on the arm where the root is null)
+            for val, facts in flow.value_arms(f, w[1], n):
+                if sr.expr(val) == f.params()[0]["n"]:
+                    for c, t in facts:
+                        if path(c.strip()) == ("this", "_root") and t is False:
+                            ok = True
     ctx.inst("P.heap-accessors", PH + "::push", ok, f.loc, "empty heap: the element becomes the root: %s" % ok, f)
